@@ -342,7 +342,7 @@ type c11OrmCase struct {
 	ElemPtr bool           `json:"elem_ptr,omitempty"`
 	Strict  bool           `json:"strict"`
 	Ctx     bool           `json:"ctx,omitempty"`
-	Path    string         `json:"path"` // conn tx stmt sqlc
+	Path    string         `json:"path"` // conn tx stmt txstmt (statement prepared on the transaction session) rawtx sqlc sqlc-cached sqlc-index
 	// IterFault k >= 0: driver.Rows.Next fails (non-EOF) when row k is fetched (k == number of
 	// rows: instead of the end of the result); -1 none. CloseFault: driver.Rows.Close fails.
 	IterFault  int  `json:"iter_fault"`
@@ -443,7 +443,7 @@ func c11GenOrmCase(r *rand.Rand) c11OrmCase {
 	c.ElemPtr = r.Intn(2) == 0
 	c.Strict = r.Intn(2) == 0
 	c.Ctx = r.Intn(2) == 0
-	c.Path = []string{"conn", "conn", "tx", "stmt", "sqlc", "tx", "stmt", "rawtx", "sqlc-cached", "sqlc-index"}[r.Intn(10)]
+	c.Path = []string{"conn", "conn", "tx", "stmt", "sqlc", "tx", "stmt", "rawtx", "sqlc-cached", "sqlc-index", "txstmt", "txstmt"}[r.Intn(12)]
 	c.BadRow = -1
 	c.Arg = r.Intn(2) == 0
 	nrows := 0
@@ -578,7 +578,7 @@ func c11GenOrmCase(r *rand.Rand) c11OrmCase {
 			c.Rows[c.BadRow][c.BadCol] = c.vals[c.BadRow][c.BadCol].Text
 		}
 	}
-	c.PrepFault = c.Path == "stmt" && r.Intn(15) == 0
+	c.PrepFault = (c.Path == "stmt" || c.Path == "txstmt") && r.Intn(15) == 0
 	if c.Method == "rows" && strings.HasPrefix(c.Path, "sqlc-") {
 		c.Path = "sqlc" // the cached forms are single-row
 	}
@@ -589,7 +589,7 @@ func c11GenOrmCase(r *rand.Rand) c11OrmCase {
 	if c.Unspecified != "" {
 		c.Path = "conn" // a panic in an unspecified case must not run into the transaction defect
 	}
-	c.PrepFault = c.PrepFault && c.Path == "stmt"
+	c.PrepFault = c.PrepFault && (c.Path == "stmt" || c.Path == "txstmt")
 	return c
 }
 
@@ -671,12 +671,43 @@ func c11Query(c *c11OrmCase, conn sqlx.Conn, dest any) error {
 			return cc.QueryRowsNoCacheCtx(c11Bg, dest, q, args...)
 		}
 		return onSession(conn) // sqlc has no Partial variants
+	case "txstmt":
+		return conn.Transact(func(s sqlx.Session) error {
+			var st sqlx.StmtSession
+			var err error
+			if c.Ctx {
+				st, err = s.PrepareCtx(c11Bg, q)
+			} else {
+				st, err = s.Prepare(q)
+			}
+			if err != nil {
+				return err
+			}
+			if st == nil {
+				return c11ErrNilStmt
+			}
+			defer st.Close()
+			return c11StmtQuery(c, st, dest, args)
+		})
 	case "stmt":
 		st, err := conn.Prepare(q)
 		if err != nil {
 			return err
 		}
+		if st == nil {
+			return c11ErrNilStmt
+		}
 		defer st.Close()
+		return c11StmtQuery(c, st, dest, args)
+	}
+	return onSession(conn)
+}
+
+// c11ErrNilStmt: Prepare returned a nil statement together with a nil error.
+var c11ErrNilStmt = errors.New("c11: Prepare returned (nil, nil)")
+
+func c11StmtQuery(c *c11OrmCase, st sqlx.StmtSession, dest any, args []any) error {
+	{
 		switch {
 		case c.Method == "row" && c.Strict && !c.Ctx:
 			return st.QueryRow(dest, args...)
@@ -695,7 +726,6 @@ func c11Query(c *c11OrmCase, conn sqlx.Conn, dest any) error {
 		}
 		return st.QueryRowsPartialCtx(c11Bg, dest, args...)
 	}
-	return onSession(conn)
 }
 
 // c11CheckStruct compares one destination struct with the expected row.
@@ -774,6 +804,9 @@ func c11RunOrm(m *vk.M, idx int, c *c11OrmCase) (st c11OrmStats) {
 		res.CloseErr = errors.New("c11 fault rows-close")
 	}
 	rec.results = []c11Result{res}
+	// the index form may legitimately query twice (index lookup, then primary lookup when the
+	// cache did not keep the row): every query of the case sees the same scripted result
+	rec.repeat = c.Path == "sqlc-index"
 	if c.PrepFault {
 		rec.fault("prepare", 0, errors.New("c11 fault prepare"))
 	}
@@ -793,7 +826,7 @@ func c11RunOrm(m *vk.M, idx int, c *c11OrmCase) (st c11OrmStats) {
 		case panicked:
 			m.Violate("C11:orm:stmt:prepare-error:panic", desc, "Prepare failed at the driver and the prepared-statement query panicked: %v", pv)
 			st.class = "violation"
-		case qerr == nil:
+		case qerr == nil || errors.Is(qerr, c11ErrNilStmt):
 			m.Violate("C11:orm:stmt:prepare-error-swallowed", desc, "Prepare failed at the driver but the prepared-statement query returned nil")
 			st.class = "violation"
 		default:
@@ -801,7 +834,7 @@ func c11RunOrm(m *vk.M, idx int, c *c11OrmCase) (st c11OrmStats) {
 		}
 		return
 	}
-	if q, _ := rec.count("query"); q != 1 && !(q == 0 && qerr != nil && !panicked) {
+	if q, _ := rec.count("query"); q != 1 && !(q == 0 && qerr != nil && !panicked) && !(q == 2 && c.Path == "sqlc-index") {
 		// (a call that fails before it reaches the driver is judged by the oracle below:
 		// wherever a copy is expected its error is an unexpected-error violation)
 		m.Inconclusive("case %d: %d queries reached the driver (want 1); err=%v", idx, q, qerr)
@@ -868,6 +901,11 @@ func c11RunOrm(m *vk.M, idx int, c *c11OrmCase) (st c11OrmStats) {
 	}
 	if panicked {
 		violate("panic", "the query panicked")
+		return
+	}
+	if errors.Is(qerr, c11ErrNilStmt) {
+		m.Violate("C11:orm:"+c.Path+":prepare-returned-nil-statement", desc, "Prepare succeeded at the driver but the session returned a nil statement and a nil error: nothing can be queried through it")
+		st.class = "violation"
 		return
 	}
 	isStruct := c.Shape != "prim"
